@@ -87,6 +87,27 @@ CLAIMED = {
    'TLC trace validation of recorded executions of the real endpoints against RSocket.tla (+ design-level TLC model checking of the same monitors)',
    'Reconnect monitor: after reconnect() - previous connection ended by server EOF, connection reset, server close, keep-alive timeout or while healthy, with 0-3 interactions pending, 1-3 consecutive reconnects - the old transport was closed, everything pending on it failed, a new transport was taken, SETUP is its first frame, ids restart, keep-alives restart, a probe request is served.',
    CONN_NOTE, 'DESIGN 6/C17', 'conn'),
+ 'C02': ('exploration',
+         'independent TLA+ transcription of the wire layout (Frames.tla), domain enumerated by TLC, every value replayed on the real codec with both back-ends',
+         'Frames.tla defines Encode/Decode for the 14 frame types from the RSocket 1.0 layout. TLC enumerates 7180 frame values (every type, every flag combination, boundary values of all numeric fields, blob length classes), '
+         'checks Decode(Encode(f)) = f and the length identities in the model and prints each value with its encoding; every pair is replayed on the real classes, once per codec back-end '
+         '(cbitstruct, and pure Python forced by masking the import): serialize() equals the layout bytes, parse yields the same fields, re-encode is identical, the length-prefixed form and the bytes '
+         'TransportTCP.send_frame writes are 3-byte length + the same bytes, and both back-ends agree. This family is weak on encode/decode fidelity by nature: claimed at exploration level.',
+         'Not decided: bugs that depend on specific byte VALUES inside data/metadata/MIME/token blobs (sampled with VERIF_SEED-random bytes; the codec does not inspect them) and numeric values between the enumerated boundaries. '
+         'Domain rule: metadata flag set iff metadata non-empty. Back-end disagreement on malformed input is recorded as drift only.',
+         'DESIGN 6/C02', 'codec'),
+ 'C18': ('exploration',
+         'independent TLA+ transcription of the extension layouts (CompositeMetadata.tla), enumerated by TLC, replayed on the real classes',
+         'CompositeMetadata.tla defines the layout of composite entries, routing tags, simple/bearer authentication, data MIME type(s) and MIME headers; TLC enumerates entry lists (all single variants, pairs, triples), '
+         'checks length identities and limits and prints value + encoding; each list (plus every well-known id, plus random lists of 3-8 specification entries, names passed as bytes and as enum members) is replayed: '
+         'encode equals layout, decode yields the same value, re-encode identical, id/name tables one-to-one, over-long names and tags rejected at encode time.',
+         'Blob contents are sampled; the well-known id table is transcribed from the registry.', 'DESIGN 6/C18', 'codec'),
+ 'C19': ('model_checking',
+         'TLC enumeration of the routing decision function (Routing.tla) with gate invariants + replay of every row on the real router/handler',
+         'Routing.tla defines the decision for (route table, unknown handler, other types\' tables, verifier, request route, authentication, entry position); TLC checks the gate, exactness and independence invariants over all 5760 cases '
+         'and prints the decision table. Every row is replayed on a real RequestRouter + RoutingRequestHandler, one handler per table, in random and adversarial orders (a rejected request immediately repeated; a second request while an '
+         'asynchronous verifier is still deciding), with five handler signature variants for the parameter binding, and a sample through real endpoints with a concurrent witness request.',
+         'Exhaustive over the enumerated product; routes are two registered names, one unregistered, none. Payload deserializer hooks are the defaults.', 'DESIGN 6/C19', 'routing'),
 }
 
 NOT_YET = 'machinery for this property is still being built in this round (see DESIGN.md section 11); not claimed until its check exists'
@@ -125,6 +146,10 @@ def main():
              'kind_free_text': 'relational TLA+ spec of legal fragment plans; plans replayed into the real cache; real plans validated by TLC'},
             {'name': 'parser', 'path': 'spec/Parser.tla + vf/props/c04.py', 'serves_properties': ['C04'],
              'kind_free_text': 'TLA+ spec of the framing decoder at byte scale; full state-graph replay on the real FrameParser'},
+            {'name': 'codec', 'path': 'spec/Frames.tla + spec/CompositeMetadata.tla + vf/props/c02.py + vf/props/c18.py', 'serves_properties': ['C02', 'C18'],
+             'kind_free_text': 'wire layouts transcribed into TLA+; value domains enumerated by TLC; every value replayed on the real codec'},
+            {'name': 'routing', 'path': 'spec/Routing.tla + vf/props/c19.py', 'serves_properties': ['C19'],
+             'kind_free_text': 'decision function in TLA+, invariants by TLC, full decision table replayed on the real router and handler'},
             {'name': 'conn', 'path': 'spec/RSocket.tla + spec/RSocketTrace.tla + vf/harness + vf/props/conn.py',
              'serves_properties': [p for p in PROPS if p in CLAIMED and CLAIMED[p][5] == 'conn'],
              'kind_free_text': 'connection-level TLA+ monitors; real endpoints driven under a virtual-time loop over a simulated link; recorded traces validated by TLC in batches'},
